@@ -46,7 +46,7 @@ let parse_op (o : string) : lop option =
 
 let tok (x : lobs) : string =
   match x with
-  | XParked -> "parked" | XDropped -> "dropped" | XDot -> "." | XQ -> "?" | XRefused -> "refused" | XHeld -> "held" | XAccepted -> "accepted"
+  | XErr -> "-ERR" | XParked -> "parked" | XDropped -> "dropped" | XDot -> "." | XQ -> "?" | XRefused -> "refused" | XHeld -> "held" | XAccepted -> "accepted"
   | XCode c -> string_of_int (int_of_nat c)
   | XOk -> "+OK"
   | XFinS (d, q, n) ->
@@ -56,7 +56,7 @@ let tok (x : lobs) : string =
 
 let parse_obs (t : string) : lobs =
   match t with
-  | "parked" -> XParked | "dropped" -> XDropped | "." -> XDot | "?" -> XQ | "refused" -> XRefused | "held" -> XHeld | "accepted" -> XAccepted
+  | "-ERR" -> XErr | "parked" -> XParked | "dropped" -> XDropped | "." -> XDot | "?" -> XQ | "refused" -> XRefused | "held" -> XHeld | "accepted" -> XAccepted
   | "+OK" -> XOk | "returned" -> XReturned | "blocked" -> XBlocked | "joined" -> XJoined | "ok" -> XFine
   | _ ->
     (try
